@@ -220,6 +220,36 @@ harnesses! {
         forget(m); forget(s);
     }
 
+    // chunk-size change between two calls, two channels with different signals: each channel still
+    // equals the single-channel instance with the same history
+    #[kani::unwind(18)]
+    fn c11_sfi_chunk_change_2ch(nd) {
+        probe::reset_flags();
+        let mk = |c| SincFixedIn::<f64>::new_with_interpolator(1.0, 1.0, SincInterpolationType::Nearest, probe::boxed64(2, 1), 5, c).unwrap();
+        let (mut m, mut s) = (mk(2), mk(1));
+        let mut x0 = [0.0f64; 8];
+        let mut x1 = [0.0f64; 8];
+        crate::drive::fill_line(&mut x0[..], 0);
+        crate::drive::fill_line(&mut x1[..], 500);
+        let mut o0 = [SENT; 15];
+        let mut o1 = [SENT; 15];
+        let mut p = [SENT; 15];
+        let rm = m.process_into_buffer(&[&x0[..5], &x1[..5]], &mut [&mut o0[..], &mut o1[..]], None);
+        let rs = s.process_into_buffer(&[&x1[..5]], &mut [&mut p[..]], None);
+        check!(matches!((&rm, &rs), (Ok(a), Ok(b)) if a == b), "C11.state_counts[base]");
+        check!(m.set_chunk_size(3).is_ok() && s.set_chunk_size(3).is_ok(), "C03.ok[base]");
+        let mut o0 = [SENT; 15];
+        let mut o1 = [SENT; 15];
+        let mut p = [SENT; 15];
+        let rm = m.process_into_buffer(&[&x0[5..8], &x1[5..8]], &mut [&mut o0[..], &mut o1[..]], None);
+        let rs = s.process_into_buffer(&[&x1[5..8]], &mut [&mut p[..]], None);
+        check!(matches!((&rm, &rs), (Ok(a), Ok(b)) if a == b), "C11.state_counts[base]");
+        let mut eq = true;
+        unroll32!(i, 15, { if o1[i].to_bits() != p[i].to_bits() { eq = false; } });
+        check!(eq, "C11.channel_equals_single[base]");
+        forget(m); forget(s);
+    }
+
     // vacuity witness (must FAIL): the twin stands for the OTHER channel
     #[kani::unwind(8)]
     fn c11_witness(nd) {
